@@ -65,6 +65,7 @@ func (o *SerializableOrderedMap[K, V]) Decode(api *serix.API, b []byte) (bytesRe
 	}
 	bytesRead += bytesReadSize
 
+	decodedKeys := make(map[K]struct{})
 	for range mapSize {
 		var key K
 		bytesReadKey, err := api.Decode(context.Background(), b[bytesRead:], &key)
@@ -72,6 +73,12 @@ func (o *SerializableOrderedMap[K, V]) Decode(api *serix.API, b []byte) (bytesRe
 			return 0, err
 		}
 		bytesRead += bytesReadKey
+
+		// an encoded map never contains a key twice: accepting it would silently merge the entries
+		if _, duplicate := decodedKeys[key]; duplicate {
+			return 0, ierrors.Errorf("duplicate key in serialized SerializableOrderedMap: %v", key)
+		}
+		decodedKeys[key] = struct{}{}
 
 		var value V
 		bytesReadValue, err := api.Decode(context.Background(), b[bytesRead:], &value)
